@@ -227,14 +227,51 @@ impl Selection {
         }
     }
 
-    pub(crate) fn contains_fragment(&self, fragment_id: ResolvedFragmentId, query: &Query) -> bool {
+    /// Whether this selection contains a spread of the fragment, directly or through the other
+    /// fragments it spreads. `visited_fragments` makes the search terminate on spread cycles.
+    pub(crate) fn contains_fragment(
+        &self,
+        fragment_id: ResolvedFragmentId,
+        query: &Query,
+        visited_fragments: &mut std::collections::BTreeSet<ResolvedFragmentId>,
+    ) -> bool {
         match self {
-            Selection::FragmentSpread(id) => *id == fragment_id,
-            _ => self.subselection().iter().any(|selection_id| {
-                query
-                    .get_selection(*selection_id)
-                    .contains_fragment(fragment_id, query)
-            }),
+            Selection::FragmentSpread(id) => {
+                if *id == fragment_id {
+                    return true;
+                }
+
+                if !visited_fragments.insert(*id) {
+                    return false;
+                }
+
+                let fragment = query.get_fragment(*id);
+
+                for selection_id in &fragment.selection_set {
+                    if query.get_selection(*selection_id).contains_fragment(
+                        fragment_id,
+                        query,
+                        visited_fragments,
+                    ) {
+                        return true;
+                    }
+                }
+
+                false
+            }
+            _ => {
+                for selection_id in self.subselection() {
+                    if query.get_selection(*selection_id).contains_fragment(
+                        fragment_id,
+                        query,
+                        visited_fragments,
+                    ) {
+                        return true;
+                    }
+                }
+
+                false
+            }
         }
     }
 
